@@ -232,6 +232,13 @@ def cases(tier, seed):
 
 
 CORPUS = [
+    # a call result stored inside a tuple literal and read back by nested subscripts
+    {"kind": "pair", "callee": "def g(a: Qint[2], b: bool) -> Tuple[Qint[2], bool]:\n    return (a + 1, not b)\n", "callee_name": "g",
+     "caller": "def f(x: Qint[2], y: bool) -> Tuple[bool, Qint[2]]:\n    c = (g(x, y), y)\n    return (c[0][1], c[0][0])\n", "args": [["x", "Qint2"], ["y", "bool"]], "ret": ["bool", "Qint2"], "inline": False, "hostile": False},
+    {"kind": "pair", "callee": "def g(a: Qint[2], b: bool) -> Tuple[bool, Qint[2]]:\n    return (b, a ^ 1)\n", "callee_name": "g",
+     "caller": "def f(x: Qint[2], y: bool) -> Qint[2]:\n    c = (y, g(x, y), g(x, not y))\n    return c[1][1] + c[2][1] if c[1][0] else c[2][1]\n", "args": [["x", "Qint2"], ["y", "bool"]], "ret": "Qint2", "inline": False, "hostile": False},
+    {"kind": "pair", "callee": "def g(a: Qint[2], b: bool) -> Tuple[Qint[2], bool]:\n    return (a + 1, not b)\n", "callee_name": "g",
+     "caller": "def f(x: Qint[2], y: bool) -> bool:\n    def g(a: Qint[2], b: bool) -> Tuple[Qint[2], bool]:\n        return (a + 1, not b)\n    c = (g(x, y), g(x, y))\n    return c[0][1] ^ (c[1][0] == 2)\n", "args": [["x", "Qint2"], ["y", "bool"]], "ret": "bool", "inline": True, "hostile": False},
     {"kind": "pair", "callee": "def g(x: Qint[2], y: Qint[2]) -> Qint[2]:\n    return x + y\n", "callee_name": "g",
      "caller": "def f(a: Qint[2], b: Qint[2]) -> Qint[2]:\n    a = g(a, b)\n    return a\n", "args": [["a", "Qint2"], ["b", "Qint2"]], "ret": "Qint2", "inline": False, "hostile": False},
     {"kind": "pair", "callee": "def g(x: Qint[2], y: Qint[2]) -> Qint[2]:\n    return x + y\n", "callee_name": "g",
